@@ -59,6 +59,37 @@ template <size_t K> struct ROp {
         else if (op == "left_shift_1") left_shift_1(P(0), P(1));
         else if (op == "right_shift_1") right_shift_1(P(0), P(1));
         else if (op == "copy") copy(P(0), P(1));
+        // forms with a carry / borrow / shifted-out bit returned through a bool&, native-word operands, Arazi-Qi inverse
+        else if (op == "add.cw") { bool r; add(r, P(0), P(1), (uint64_t) s); ret = r ? "1" : "0"; }
+        else if (op == "addin.cw") { bool r; add(r, P(0), (uint64_t) s); ret = r ? "1" : "0"; }
+        else if (op == "addin.w") add(P(0), (uint64_t) s);
+        else if (op == "sub.cw") { bool r; sub(r, P(0), P(1), (uint64_t) s); ret = r ? "1" : "0"; }
+        else if (op == "subin.cw") { bool r; sub(r, P(0), (uint64_t) s); ret = r ? "1" : "0"; }
+        else if (op == "subin.w") sub(P(0), (uint64_t) s);
+        else if (op == "subin.c") { bool r; sub(r, P(0), P(1)); ret = r ? "1" : "0"; }
+        else if (op == "add_1.c") { bool r; add_1(r, P(0), P(1)); ret = r ? "1" : "0"; }
+        else if (op == "sub_1.c") { bool r; sub_1(r, P(0), P(1)); ret = r ? "1" : "0"; }
+        else if (op == "add_wc.c") { bool r; add_wc(r, P(0), P(1), P(2), s != 0); ret = r ? "1" : "0"; }
+        else if (op == "add_wcin.c") { bool r; add_wc(r, P(0), P(1), s != 0); ret = r ? "1" : "0"; }
+        else if (op == "sub_wc.c") { bool r; sub_wc(r, P(0), P(1), P(2), s != 0); ret = r ? "1" : "0"; }
+        else if (op == "sub_wcin.c") { bool r; sub_wc(r, P(0), P(1), s != 0); ret = r ? "1" : "0"; }
+        else if (op == "sub_wcin") sub_wc(P(0), P(1), s != 0);
+        else if (op == "left_shift_1.c") { bool z; left_shift_1(z, P(0), P(1)); ret = z ? "1" : "0"; }
+        else if (op == "right_shift_1.c") { bool z; right_shift_1(z, P(0), P(1)); ret = z ? "1" : "0"; }
+        else if (op == "arazi_qi") arazi_qi(P(0), P(1));
+        else if (op == "mulin.w") mul(P(0), (uint64_t) s);
+        else if (op == "laddmul.c") { bool r; laddmul(r, P(0), P(1), P(2), P(3), P(4)); ret = r ? "1" : "0"; }
+        else if (op == "exp_mod.w") exp_mod(P(0), P(1), (uint64_t) s, P(2));
+        else if (op == "div.w") {          // div(q, T& r, a, const T& b); extra: b, then 1 if r and b are the same word
+            uint64_t b = (uint64_t) s, r = 0; bool same = x.size() > 1 && x[1] == "1";
+            if (same) { div(P(0), b, P(1), b); r = b; } else div(P(0), r, P(1), b);
+            ret = std::to_string((unsigned long long) r);
+        }
+        else if (op == "div_r.w") {        // div_r(T& r, a, const T& b)
+            uint64_t b = (uint64_t) s, r = 0; bool same = x.size() > 1 && x[1] == "1";
+            if (same) { div_r(b, P(0), b); r = b; } else div_r(r, P(0), b);
+            ret = std::to_string((unsigned long long) r);
+        }
         else if (op == "op+=") P(0) += P(1);
         else if (op == "op-=") P(0) -= P(1);
         else if (op == "op*=") P(0) *= P(1);
